@@ -18,6 +18,7 @@ EXTENDS Integers, Sequences, FiniteSets, TLC
 CONSTANTS Names,          \* set of name labels (strings)
           BaseLens,       \* piece lengths always offered
           Align,          \* set of alignments A: also offer lengths ending a block on / next to a multiple of A
+          EndAlign,       \* set of alignments A: also offer lengths making the finalized stream end on / next to a multiple of A
           MaxOps,         \* depth bound (number of calls)
           MaxFiles,       \* bound on started files
           Srcs,           \* subset of {"exact", "short", "long"}
@@ -150,10 +151,14 @@ Finalize ==
 
 \* ---- choice of arguments ----------------------------------------------------------------------
 \* lengths that put the end of the content block on, one before and one after a multiple of A
-AlignedLens == { l \in 0..(2 * 64) : \E A \in Align : \E k \in 1..2 : \E e \in {-1, 0, 1} :
-                    (pos + 17 + l) = k * A * ((pos + 17) \div A + 1) + e /\ FALSE } \* (kept simple: see LensNow)
+\* lengths that make the FINALIZED stream (blocks + end marker + index + its length word) end on, one before
+\* and one after a multiple of A, if every open file is ended right after this piece (exact when the
+\* appended file is the current one and the only one open)
+FinalAfter(l) == pos + 17 + l + 41 * Cardinality(opened) + 1 + FooterLen + 4
+EndAligned(A) == { l \in { ((A - (FinalAfter(0) % A)) % A) + e : e \in {-1, 0, 1} } : l >= 0 }
 LensNow == BaseLens \cup
-           UNION { { l \in { A - ((pos + 17) % A) + e : e \in {-1, 0, 1} } : l >= 0 } : A \in Align }
+           UNION { { l \in { A - ((pos + 17) % A) + e : e \in {-1, 0, 1} } : l >= 0 } : A \in Align } \cup
+           UNION { EndAligned(A) : A \in EndAlign }
 
 IdsOffered == 0..nextId          \* open, ended and one never-issued id (nextId)
 
